@@ -166,6 +166,16 @@ fn batchmaker(o: &Opts) {
             if len > 0 && rng.gen_bool(0.3) { tx[0] = 0; }  // "sample" transactions of the benchmark build start with 0
             evs.push(Some(tx));
         }
+        // "simultaneous" pairs: a transaction that is already in the channel when the batch timer expires (the task sees both branches of its
+        // select! ready at once and may serve them in either order); the pair is handed over without letting the task run in between
+        let mut simul: std::collections::HashSet<usize> = std::collections::HashSet::new();
+        if k % 3 == 1 {
+            let mut i = 0;
+            while i + 1 < evs.len() {
+                if evs[i].is_some() && rng.gen_bool(0.35) { evs.insert(i + 1, None); simul.insert(i); i += 2; } else { i += 1; }
+            }
+        }
+        let mut evs_emitted: Vec<Option<Vec<u8>>> = vec![];
         let dbpath = format!("{}/db_bm_{}_{}", o.out, o.seed, k);
         let _ = std::fs::remove_dir_all(&dbpath);
         let (sealed, stored_ok, digests_ok, panicked, net_ok, pairing_ok) = rt.block_on(async {
@@ -182,20 +192,30 @@ fn batchmaker(o: &Opts) {
             let mut sealed: Vec<Vec<String>> = vec![]; let mut stored_ok = true; let mut digests_ok = true; let mut panicked = false; let mut net_ok = true; let mut pairing_ok = true;
             let addr_of = |pk: &crypto::PublicKey| if *pk == peers[0].0 { addr(1) } else { addr(2) };
             let mut st = store.clone();
-            for ev in &evs {
+            let mut open: Vec<Vec<u8>> = vec![];          // received and not yet seen in a sealed batch (harness bookkeeping for the simultaneous pairs)
+            let mut idx = 0;
+            while idx < evs.len() {
+                let ev = &evs[idx];
+                let both = simul.contains(&idx);
+                let before = open.clone();
                 match ev {
-                    Some(tx) => { if tx_tx.send(tx.clone()).await.is_err() { panicked = true; } }
+                    Some(tx) => {
+                        if tx_tx.send(tx.clone()).await.is_err() { panicked = true; }
+                        open.push(tx.clone());
+                        if both { tokio::time::advance(std::time::Duration::from_millis(delay)).await; }
+                    }
                     None => { tokio::time::advance(std::time::Duration::from_millis(delay)).await; }
                 }
                 settle().await;
                 let mut out_now: Vec<String> = vec![];
+                let mut raw_now: Vec<Vec<Vec<u8>>> = vec![];
                 while let Ok(m) = rx_msg.try_recv() {
                     // the sealed batch as broadcast and as handed on: its exact serialized bytes
                     let taps = network::verif::tap_drain();
                     // the i-th handler is the handle of the i-th transmission: it must carry the name of the peer that transmission went to
                     if m.handlers.len() != taps.len() || m.handlers.iter().zip(taps.iter()).any(|((pk, _), (_, a, _))| addr_of(pk) != *a) { pairing_ok = false; }
                     if taps.len() != 2 || taps.iter().any(|(rel, _, b)| !*rel || b[..] != m.batch[..]) { net_ok = false; if std::env::var("HSDBG").is_ok() { eprintln!("taps {:?}", taps.iter().map(|(r,a,b)| (*r,*a,b.len())).collect::<Vec<_>>()); } }
-                    match bincode::deserialize::<MempoolMessage>(&m.batch) { Ok(MempoolMessage::Batch(b)) => out_now.push(coq_list(&b.iter().map(|t| coq_bytes(t)).collect::<Vec<_>>())), _ => { out_now.push("[]".into()); } }
+                    match bincode::deserialize::<MempoolMessage>(&m.batch) { Ok(MempoolMessage::Batch(b)) => { out_now.push(coq_list(&b.iter().map(|t| coq_bytes(t)).collect::<Vec<_>>())); for _ in 0..b.len().min(open.len()) { open.remove(0); } raw_now.push(b); }, _ => { out_now.push("[]".into()); raw_now.push(vec![]); } }
                     // Processor: stored and announced under the hash of exactly these bytes
                     let expect = Sha512::digest(&m.batch)[..32].to_vec();
                     tx_batch.send(m.batch.clone()).await.unwrap(); settle().await;
@@ -203,12 +223,36 @@ fn batchmaker(o: &Opts) {
                     match st.read(expect.clone()).await { Ok(Some(v)) => if v != m.batch { stored_ok = false; }, _ => stored_ok = false }
                 }
                 if tx_tx.is_closed() { panicked = true; }
-                sealed.push(out_now);
+                if both {
+                    // which of the two ready branches was served first? (either is correct; the observation is split accordingly)
+                    let tx = ev.clone().unwrap();
+                    let mut with_tx = before.clone(); with_tx.push(tx.clone());
+                    let size: usize = with_tx.iter().map(|t| t.len()).sum();
+                    let pred_a = vec![with_tx.clone()];
+                    let mut pred_b: Vec<Vec<Vec<u8>>> = vec![];
+                    if !before.is_empty() { pred_b.push(before.clone()); }
+                    if tx.len() >= batch_size { pred_b.push(vec![tx.clone()]); }
+                    if raw_now != pred_a && raw_now == pred_b {
+                        let nb = if before.is_empty() { 0 } else { 1 };
+                        evs_emitted.push(None); evs_emitted.push(Some(tx));
+                        sealed.push(out_now[..nb].to_vec()); sealed.push(out_now[nb..].to_vec());
+                    } else {
+                        evs_emitted.push(Some(tx)); evs_emitted.push(None);
+                        if size >= batch_size { sealed.push(out_now); sealed.push(vec![]); } else { sealed.push(vec![]); sealed.push(out_now); }
+                    }
+                    idx += 2;
+                } else {
+                    evs_emitted.push(ev.clone());
+                    sealed.push(out_now);
+                    idx += 1;
+                }
                 if panicked { break; }
             }
             (sealed, stored_ok, digests_ok, panicked, net_ok, pairing_ok)
         });
         let _ = std::fs::remove_dir_all(&dbpath);
+        if !simul.is_empty() { e.stat("simultaneous_tx_and_timer", simul.len() as u64); }
+        let evs = evs_emitted;
         let evt: Vec<String> = evs.iter().map(|x| match x { Some(t) => format!("BTx {}", coq_bytes(t)), None => "BTimer".into() }).collect();
         let obs: Vec<String> = sealed.iter().map(|bs| coq_list(bs)).collect();
         e.stat(&format!("batch_size={}", if batch_size == 1 { "1" } else if batch_size < 10 { "2-9" } else { "10+" }), 1);
@@ -316,7 +360,15 @@ fn store_mode(o: &Opts) {
                 let key = rng.gen_range(0, nkeys); let kb = vec![key as u8, 7, 7];
                 let h = rng.gen_range(0, handles.len());
                 let x: f64 = rng.gen();
-                if x < 0.35 {
+                if k % 4 == 2 && rng.gen_bool(0.08) {
+                    // a burst: more writes than the command channel holds (100), issued back to back through one handle, the reader right behind
+                    // (on a key of its own, so that no waiter is woken in the middle of the burst: one observation entry per command)
+                    let n = rng.gen_range(101, 140u64);
+                    let key = nkeys; let kb = vec![key as u8, 7, 7];
+                    for j in 0..n { let v = (j % 200) as u64; handles[h].write(kb.clone(), vec![v as u8]).await; cmds.push(format!("Write {} {}", key, v)); outs.push(coq_list(&Vec::<String>::new())); }
+                    let r = handles[h].read(kb).await.unwrap(); cmds.push(format!("Read {} {}", key, id));
+                    done.borrow_mut().push(format!("ORead {} {}", id, match r { Some(v) => format!("(Some {})", v[0]), None => "None".into() }));
+                } else if x < 0.35 {
                     let v = rng.gen_range(0, 200u64);
                     handles[h].write(kb, vec![v as u8]).await; cmds.push(format!("Write {} {}", key, v));
                 } else if x < 0.6 {
@@ -429,12 +481,31 @@ fn sigs(o: &Opts) {
         }
         // f5: the signature service signs what Signature::new signs (Ed25519 is deterministic), and it verifies
         let rt = fresh_rt();
+        // ... also when several holders of the service (core, proposer) ask concurrently and some requests are abandoned half-way
+        // (a dropped future): every answer is the signature of the digest THAT caller asked for
+        let nreq = rng.gen_range(2, 7usize);
+        let abandon: Vec<bool> = (0..nreq).map(|_| rng.gen_bool(0.35)).collect();
+        let pk0 = keys[0].0;
         let f5 = rt.block_on(async { let mut svc = crypto::SignatureService::new(clone_secret(&keys[0].1)); let s = svc.request_signature(digest.clone()).await;
-                                     s.verify(&digest, &keys[0].0).is_ok() && sig_bytes(&s) == sig_bytes(&honest[0].1) });
+                                     let mut ok = s.verify(&digest, &keys[0].0).is_ok() && sig_bytes(&s) == sig_bytes(&honest[0].1);
+                                     let mut tasks = vec![];
+                                     for i in 0..nreq {
+                                         let mut c = svc.clone(); let mut dd = digest.0; dd[1] = dd[1].wrapping_add(1 + i as u8); let di = Digest(dd);
+                                         if abandon[i] {
+                                             // polled once (the request is queued), then dropped: the losing branch of a select!, an aborted task
+                                             tokio::select! { biased; _ = c.request_signature(di.clone()) => (), _ = std::future::ready(()) => () }
+                                         } else {
+                                             tasks.push(tokio::spawn(async move { let s = c.request_signature(di.clone()).await; s.verify(&di, &pk0).is_ok() }));
+                                         }
+                                     }
+                                     for t in tasks.into_iter() { match t.await { Ok(v) => if !v { ok = false; }, Err(_) => { ok = false; } } }
+                                     let mut dd = digest.0; dd[2] ^= 0x55; let dl = Digest(dd);
+                                     let s = svc.request_signature(dl.clone()).await; if s.verify(&dl, &pk0).is_err() { ok = false; }
+                                     ok });
         let f6 = !panicked.get();
         e.stat(&format!("batch size {}", m), 1); seen += 1;
         let fl = |b: bool| if b { "1" } else { "0" };
-        e.case(k, "", &format!("verdict_of [{}; {}; {}; {}; {}; {}]", fl(f1), fl(f2), fl(f3), fl(f4), fl(f5), fl(f6)), json!({"case": k, "batch_size": m, "bit_flips": flips, "batch_corruptions": corrs, "flags": [f1, f2, f3, f4, f5, f6], "flags_meaning": ["honest signatures verify", "honest batch (and the empty batch) verifies", "every single-bit flip is rejected", "a batch is accepted iff every member verifies", "the signature service signs like Signature::new", "no verification call panicked"]}));
+        e.case(k, "", &format!("verdict_of [{}; {}; {}; {}; {}; {}]", fl(f1), fl(f2), fl(f3), fl(f4), fl(f5), fl(f6)), json!({"case": k, "batch_size": m, "bit_flips": flips, "batch_corruptions": corrs, "flags": [f1, f2, f3, f4, f5, f6], "flags_meaning": ["honest signatures verify", "honest batch (and the empty batch) verifies", "every single-bit flip is rejected", "a batch is accepted iff every member verifies", "the signature service signs like Signature::new, also under concurrent and abandoned requests", "no verification call panicked"]}));
     }
     e.stat("distinct_nontrivial", seen);
     e.finish(&o.out, "sigs", o.seed);
